@@ -40,11 +40,26 @@ inductive NodePc
   | evWait                                       -- `wait_for_event(node_id)` (manager.py _execute_node)
   | body (k : Nat) (kw : Kwargs) (inv : Nat)     -- awaiting the body of attempt k
   | sleep (k : Nat) (kw : Kwargs) (inv : Nat)    -- `asyncio.sleep(delay)` after failed attempt k
+  -- suspended inside a collaborator callback, `left` more bare yields to go:
+  | cbStart (left : Nat) (inv : Nat)                               -- on_node_start
+  | cbRetry (left : Nat) (k : Nat) (kw : Kwargs) (inv : Nat)       -- on_node_complete(error) before a retry
+  | cbOk (left : Nat) (v : Val)                                    -- on_node_complete(None)
+  | cbFail (left : Nat) (e : Exc)                                  -- on_node_complete(error), final
+  | cbSave (left : Nat)                                            -- artifact_store.save
+  deriving DecidableEq, Repr, Inhabited
+
+inductive Outcome
+  | value (v : Val)       -- PipelineResult(value=v, error=None)
+  | error (e : Exc)       -- PipelineResult(value=None, error=e)
+  | raised (e : Exc)      -- a BaseException propagated out of chart.run
+  | cancelled             -- CancelledError propagated out of chart.run
   deriving DecidableEq, Repr, Inhabited
 
 inductive Frame
   | mgrStart                                                  -- chart.run / DAG.run / manager.run not started
   | mgrWait                                                   -- manager.run: cond['run']
+  | mgrCbStart (left : Nat)                                   -- suspended in on_pipeline_start
+  | mgrCbComplete (left : Nat) (o : Outcome)                  -- suspended in on_pipeline_complete
   | dagInit (d : DagRef)                                      -- _run_dag entry
   | dagLaunch (d : DagRef) (rest : List Node)                 -- cond[rest.head]
   | dagWaitDest (d : DagRef)                                  -- cond[dag.dest]
@@ -88,13 +103,6 @@ structure Task where
   st         : TaskSt
   mustCancel : Bool := false
   name       : TaskName := .dag
-  deriving DecidableEq, Repr, Inhabited
-
-inductive Outcome
-  | value (v : Val)       -- PipelineResult(value=v, error=None)
-  | error (e : Exc)       -- PipelineResult(value=None, error=e)
-  | raised (e : Exc)      -- a BaseException propagated out of chart.run
-  | cancelled             -- CancelledError propagated out of chart.run
   deriving DecidableEq, Repr, Inhabited
 
 inductive Obs
@@ -378,30 +386,54 @@ def dagInit (c : Ctx) (s : St) (obs : List Obs) (d : DagRef) (below : List Frame
   | [] => retTo c s obs below .none
   | ord => dagLaunch c d below s obs ord
 
+/-- a call into a collaborator that suspends `m` more times before it returns: the task yields, and is
+resumed at the callback pc `frames j` with `j` yields left; with `m = 0` the call returns at once -/
+def cbThen (c : Ctx) (s : St) (obs : List Obs) (frames : Nat → List Frame) (m : Nat)
+    (k : St → List Obs → Out) : Out :=
+  match m with
+  | 0 => k s obs
+  | j + 1 => yieldNow c s obs (frames j)
+
+/-- the `finally` of `_run_node` on the normal path, then return to the caller frame -/
+def nodeFinish (c : Ctx) (s : St) (obs : List Obs) (d : DagRef) (n : Node) (below : List Frame) : Out :=
+  retTo c (nodeFinally c.P s d n true) obs below .none
+
 /-- `_run_node` after `_execute_node` returned `v` (manager.py 630–649) and the `finally` -/
 def nodePost (c : Ctx) (s : St) (obs : List Obs) (d : DagRef) (n : Node) (below : List Frame) (v : Val)
     (executedHere : Bool := true) : Out :=
   -- a `Recurrent` result: start the recurrent subgraph, do not unlock the descendants
-  let unlock := !v.isRecur
   let obs := if v.isRecur then obs ++ [.spawn s.tasks.length (.recur n)] else obs
   let s := if v.isRecur then (spawn s [.recStart d n v] (.recur n)).1 else s
   let s := s.setRes n v
   -- fix c29fd0e: only a real value is saved, and only by the task that executed the node
-  let obs := if executedHere && !v.isRecur && !v.isExc then obs ++ [.save n v] else obs
-  let s := nodeFinally c.P s d n unlock
-  retTo c s obs below .none
+  if executedHere && !v.isRecur && !v.isExc then
+    cbThen c s (obs ++ [.save n v]) (fun j => .node d n false (.cbSave j) :: below) (c.P.cbYield .save n)
+      (fun s obs => nodeFinish c s obs d n below)
+  else retTo c (nodeFinally c.P s d n (!v.isRecur)) obs below .none
 
-/-- `_execute_node`'s `except Exception as ex` (manager.py 333–340) -/
-def nodeFail (c : Ctx) (s : St) (obs : List Obs) (d : DagRef) (n : Node) (below : List Frame) (e : Exc) : Out :=
-  let obs := obs ++ [.ncomplete n (some e)]
+/-- `_execute_node`'s `except Exception as ex` after its `emit_on_node_complete(error=ex)` (manager.py 335–340) -/
+def nodeFailCont (c : Ctx) (s : St) (obs : List Obs) (d : DagRef) (n : Node) (below : List Frame) (e : Exc) : Out :=
   if d.isOneof then nodePost c s obs d n below (.exc e)
   else raiseOut c (nodeFinally c.P s d n true) obs below (.exc e)
 
+/-- `_execute_node`'s `except Exception as ex` (manager.py 333–340) -/
+def nodeFail (c : Ctx) (s : St) (obs : List Obs) (d : DagRef) (n : Node) (below : List Frame) (e : Exc) : Out :=
+  cbThen c s (obs ++ [.ncomplete n (some e)]) (fun j => .node d n false (.cbFail j e) :: below)
+    (c.P.cbYield .ncomplete n) (fun s obs => nodeFailCont c s obs d n below e)
+
 def nodeSuccess (c : Ctx) (s : St) (obs : List Obs) (d : DagRef) (n : Node) (below : List Frame) (v : Val) : Out :=
-  nodePost c s (obs ++ [.ncomplete n none]) d n below v
+  cbThen c s (obs ++ [.ncomplete n none]) (fun j => .node d n false (.cbOk j v) :: below)
+    (c.P.cbYield .ncomplete n) (fun s obs => nodePost c s obs d n below v)
 
 def nodeDefault (c : Ctx) (s : St) (obs : List Obs) (d : DagRef) (n : Node) (below : List Frame) (kw : Kwargs) : Out :=
   nodeSuccess c s (obs ++ [.dflt n kw]) d n below (c.P.dflt n kw)
+
+/-- `await asyncio.sleep(retry_policy.delay)` (manager.py 391) -/
+def nodeSleep (c : Ctx) (s : St) (obs : List Obs) (d : DagRef) (n : Node) (force : Bool) (below : List Frame)
+    (k : Nat) (kw : Kwargs) (inv : Nat) : Out :=
+  let dl := (c.P.cfg n).delayEff
+  if dl > 0 then block c s (obs ++ [.sleep dl]) (.node d n force (.sleep k kw inv) :: below) (.sleep n inv k dl)
+  else yieldNow c s obs (.node d n force (.sleep k kw inv) :: below)
 
 /-- `__execute_node`: outcome `o` of attempt `k` (manager.py 362–397) -/
 def nodeAfterBody (c : Ctx) (s : St) (obs : List Obs) (d : DagRef) (n : Node) (force : Bool) (below : List Frame)
@@ -414,10 +446,8 @@ def nodeAfterBody (c : Ctx) (s : St) (obs : List Obs) (d : DagRef) (n : Node) (f
       if k == cfg.attemptsEff then
         if cfg.useDefault then nodeDefault c s obs d n below kw else nodeFail c s obs d n below e
       else
-        let obs := obs ++ [.ncomplete n (some e)]
-        let dl := cfg.delayEff
-        if dl > 0 then block c s (obs ++ [.sleep dl]) (.node d n force (.sleep k kw inv) :: below) (.sleep n inv k dl)
-        else yieldNow c s obs (.node d n force (.sleep k kw inv) :: below)
+        cbThen c s (obs ++ [.ncomplete n (some e)]) (fun j => .node d n force (.cbRetry j k kw inv) :: below)
+          (c.P.cbYield .ncomplete n) (fun s obs => nodeSleep c s obs d n force below k kw inv)
     else if e.isException then
       if cfg.useDefault then nodeDefault c s obs d n below kw else nodeFail c s obs d n below e
     else
@@ -435,6 +465,13 @@ def nodeAttempt (c : Ctx) (s : St) (obs : List Obs) (d : DagRef) (n : Node) (for
     | .inline => nodeAfterBody c s obs d n force below k kw inv o
     | _ => block c s (obs ++ [.gate n inv k]) (.node d n force (.body k kw inv) :: below) (.gate n inv k o)
 
+/-- `_execute_node` after `emit_on_node_start` returned: the kwargs and the first attempt (manager.py 319–326) -/
+def nodeBegin (c : Ctx) (s : St) (obs : List Obs) (d : DagRef) (n : Node) (force : Bool) (below : List Frame)
+    (inv : Nat) : Out :=
+  match nodeKwargs c.P s n with
+  | .err e => nodeFail c s obs d n below e
+  | .ok kw => nodeAttempt c s obs d n force below 1 kw inv
+
 /-- `_run_node` / `_execute_node` entry (manager.py 309–326) -/
 def nodeStart (c : Ctx) (s : St) (obs : List Obs) (d : DagRef) (n : Node) (force : Bool) (below : List Frame) : Out :=
   if s.procExists n then
@@ -443,10 +480,8 @@ def nodeStart (c : Ctx) (s : St) (obs : List Obs) (d : DagRef) (n : Node) (force
   else
     let inv := s.invCount n
     let s := s.markProcessed n
-    let obs := obs ++ [.nstart n]
-    match nodeKwargs c.P s n with
-    | .err e => nodeFail c s obs d n below e
-    | .ok kw => nodeAttempt c s obs d n force below 1 kw inv
+    cbThen c s (obs ++ [.nstart n]) (fun j => .node d n force (.cbStart j inv) :: below) (c.P.cbYield .nstart n)
+      (fun s obs => nodeBegin c s obs d n force below inv)
 
 /-- `_run_oneof`: try the remaining candidates (manager.py 542–586) -/
 def oneofTry (c : Ctx) (d : DagRef) (head : Node) (below : List Frame) : St → List Obs → List Node → Out
@@ -550,37 +585,42 @@ def taskErrors (s : St) : List Exc :=
 def liveTasks (s : St) (except : Nat) : List Nat :=
   (List.range s.tasks.length).filter fun i => i != except
 
+/-- `chart.run` returns (or re-raises): the caller's task ends -/
+def mgrReturn (c : Ctx) (s : St) (obs : List Obs) (o : Outcome) : Out :=
+  let r := endTask c s (obs ++ [.returned o]) .ok
+  (r.1.setOutcome o, r.2)
+
+/-- `chart.run` wraps the outcome in a PipelineResult and emits `on_pipeline_complete` (chart.py 55–71);
+a BaseException outside Exception passes through without it -/
+def mgrComplete (c : Ctx) (s : St) (obs : List Obs) (o : Outcome) : Out :=
+  match o with
+  | .raised _ => mgrReturn c s obs o
+  | _ => cbThen c s (obs ++ [.pcomplete o]) (fun j => [.mgrCbComplete j o]) (c.P.cbYield .pcomplete 0)
+           (fun s obs => mgrReturn c s obs o)
+
 /-- `manager.run` after its wait predicate became true, through `chart.run`'s result handling -/
 def mgrFinish (c : Ctx) (s : St) (obs : List Obs) : Out :=
   let errs := taskErrors s
   let o : Outcome := match errs[c.pick % (max errs.length 1)]? with
     | some e => if e.isException then .error e else .raised e
     | none => .value (s.getHid c.P.g.output)
-  let s := cancelTasks s (liveTasks s c.t)
-  let obs := match o with
-    | .raised _ => obs
-    | _ => obs ++ [.pcomplete o]
-  let r := endTask c s (obs ++ [.returned o]) .ok
-  (r.1.setOutcome o, r.2)
+  mgrComplete c (cancelTasks s (liveTasks s c.t)) obs o
 
 def mgrCheck (c : Ctx) (s : St) (obs : List Obs) : Out :=
   if !(taskErrors s).isEmpty || s.exists c.P.g.output then mgrFinish c s obs
   else block c s obs [.mgrWait] (.cond .run)
 
-def mgrStart (c : Ctx) (s : St) (obs : List Obs) : Out :=
-  let obs := obs ++ [.pstart]
-  if !c.P.poolsOk then
-    let o := Outcome.error ⟨"Other:RuntimeError", 0, 0, 0⟩
-    let r := endTask c s (obs ++ [.pcomplete o, .returned o]) .ok
-    (r.1.setOutcome o, r.2)
+/-- `chart.run` after `emit_on_pipeline_start` returned: pool validation, `manager.run` (chart.py 54, dag.py 38–47) -/
+def mgrBegin (c : Ctx) (s : St) (obs : List Obs) : Out :=
+  if !c.P.poolsOk then mgrComplete c s obs (.error ⟨"Other:RuntimeError", 0, 0, 0⟩)
   else
     match reducedRef c.P s c.P.g.input c.P.g.output false false false with
-    | none =>
-      let o := Outcome.error ⟨"Other:NodeNotFound", 0, 0, 0⟩
-      let r := endTask c s (obs ++ [.pcomplete o, .returned o]) .ok
-      (r.1.setOutcome o, r.2)
-    | some d =>
-      mgrCheck c (spawn s [.dagInit d] .run).1 (obs ++ [.spawn s.tasks.length .run])
+    | none => mgrComplete c s obs (.error ⟨"Other:NodeNotFound", 0, 0, 0⟩)
+    | some d => mgrCheck c (spawn s [.dagInit d] .run).1 (obs ++ [.spawn s.tasks.length .run])
+
+def mgrStart (c : Ctx) (s : St) (obs : List Obs) : Out :=
+  cbThen c s (obs ++ [.pstart]) (fun j => [.mgrCbStart j]) (c.P.cbYield .pstart 0)
+    (fun s obs => mgrBegin c s obs)
 
 /-- CancelledError delivered to the current task at its suspension point -/
 def deliverCancel (c : Ctx) (s : St) (tk : Task) : Out :=
@@ -588,8 +628,14 @@ def deliverCancel (c : Ctx) (s : St) (tk : Task) : Out :=
   | [.mgrStart] =>
     let r := endTask c s [.returned .cancelled] .cancelled
     (r.1.setOutcome .cancelled, r.2)
+  | [.mgrCbStart _] =>
+    let r := endTask c s [.returned .cancelled] .cancelled
+    (r.1.setOutcome .cancelled, r.2)
   | [.mgrWait] =>
     let r := endTask c (cancelTasks s (liveTasks s c.t)) [.returned .cancelled] .cancelled
+    (r.1.setOutcome .cancelled, r.2)
+  | [.mgrCbComplete _ _] =>
+    let r := endTask c s [.returned .cancelled] .cancelled
     (r.1.setOutcome .cancelled, r.2)
   | fs => raiseOut c s [] fs .cancelled
 
@@ -605,6 +651,9 @@ def stepTask (c : Ctx) (s : St) : Option Out :=
         match tk.frames, rv with
         | [.mgrStart], _ => some (mgrStart c s [])
         | [.mgrWait], _ => some (mgrCheck c s [])
+        | [.mgrCbStart j], _ => some (cbThen c s [] (fun j => [.mgrCbStart j]) j (fun s obs => mgrBegin c s obs))
+        | [.mgrCbComplete j o], _ =>
+          some (cbThen c s [] (fun j => [.mgrCbComplete j o]) j (fun s obs => mgrReturn c s obs o))
         | .dagInit d :: below, _ => some (dagInit c s [] d below)
         | .dagLaunch d rest :: below, _ => some (dagLaunch c d below s [] rest)
         | .dagWaitDest d :: below, _ => some (dagWaitDest c s [] d below)
@@ -612,6 +661,21 @@ def stepTask (c : Ctx) (s : St) : Option Out :=
         | .node d n _ .evWait :: below, _ => some (nodePost c s [] d n below (s.get n) false)
         | .node d n force (.body k kw inv) :: below, .body o => some (nodeAfterBody c s [] d n force below k kw inv o)
         | .node d n force (.sleep k kw inv) :: below, _ => some (nodeAttempt c s [] d n force below (k + 1) kw inv)
+        | .node d n force (.cbStart j inv) :: below, _ =>
+          some (cbThen c s [] (fun j => .node d n force (.cbStart j inv) :: below) j
+            (fun s obs => nodeBegin c s obs d n force below inv))
+        | .node d n force (.cbRetry j k kw inv) :: below, _ =>
+          some (cbThen c s [] (fun j => .node d n force (.cbRetry j k kw inv) :: below) j
+            (fun s obs => nodeSleep c s obs d n force below k kw inv))
+        | .node d n _ (.cbOk j v) :: below, _ =>
+          some (cbThen c s [] (fun j => .node d n false (.cbOk j v) :: below) j
+            (fun s obs => nodePost c s obs d n below v))
+        | .node d n _ (.cbFail j e) :: below, _ =>
+          some (cbThen c s [] (fun j => .node d n false (.cbFail j e) :: below) j
+            (fun s obs => nodeFailCont c s obs d n below e))
+        | .node d n _ (.cbSave j) :: below, _ =>
+          some (cbThen c s [] (fun j => .node d n false (.cbSave j) :: below) j
+            (fun s obs => nodeFinish c s obs d n below))
         | .switchStart d n :: below, _ => some (switchStart c s [] d n below)
         | .switchRet _ n :: below, .ret v =>
           some (retTo c (notifyAll s ((c.P.g.desc1 n).map Key.node)) [] below v)
